@@ -367,6 +367,15 @@ func corner() []json.RawMessage {
 	add("negative zero", sc("float64"), fval(math.Copysign(0, -1)))
 	add("pointer to float", ptrT(sc("float64")), pval(fval(1)))
 	add("runes", sliceT(sc("int32")), lval(ival('a'), ival('\''), ival('\\'), ival(233), ival(127), ival(-1)))
+	// every int32 takes the "rune" path of ValueLit: values that are no code points (surrogates, above U+10FFFF,
+	// negative) and U+FFFD itself must come back as themselves, also as map keys (no duplicate keys)
+	add("int32 values that are no code points", sliceT(sc("int32")), lval(ival(0xD800), ival(0xDFFF), ival(0x110000), ival(math.MaxInt32), ival(math.MinInt32), ival(-1), ival(0xFFFD), ival(0x10FFFF), ival(2000000)))
+	add("int32 no-code-point map keys", mapT(sc("int32"), sc("string")), ValJ{M: [][2]ValJ{{ival(0xD800), sval("a")}, {ival(0xFFFD), sval("b")}, {ival(0x110000), sval("c")}, {ival(-7), sval("d")}}})
+	add("pointer to and field of no-code-point int32", structT(fld("R", sc("int32")), fld("P", ptrT(sc("int32")))), lval(ival(0xDABC), pval(ival(0x7FFFFFF0))))
+	// maps whose keys are not integers or strings, three and more entries: the text must not depend on map order
+	add("map with 5 float keys", mapT(sc("float64"), sc("int")), ValJ{M: [][2]ValJ{{fval(0.5), ival(1)}, {fval(2), ival(2)}, {fval(-3.25), ival(3)}, {fval(1e21), ival(4)}, {fval(10), ival(5)}}})
+	add("map with 4 array keys", mapT(arrayT(2, sc("int")), sc("string")), ValJ{M: [][2]ValJ{{lval(ival(1), ival(2)), sval("a")}, {lval(ival(10), ival(0)), sval("b")}, {lval(ival(2), ival(1)), sval("c")}, {lval(ival(-1), ival(9)), sval("d")}}})
+	add("map with 4 struct keys", mapT(structT(fld("A", sc("int")), fld("B", sc("string"))), sc("bool")), ValJ{M: [][2]ValJ{{lval(ival(1), sval("x")), bval(true)}, {lval(ival(10), sval("")), bval(false)}, {lval(ival(2), sval("y")), bval(true)}, {lval(ival(3), sval("a")), bval(false)}}})
 	add("named rune-like", sliceT(nm("c10types.Code")), lval(ival('a'), ival(0)))
 	add("pointer to rune", ptrT(sc("int32")), pval(ival('x')))
 	add("strings", sliceT(sc("string")), lval(sval("a\"b\n`"), sval("\xff"), sval("\u2028"), sval("")))
